@@ -93,3 +93,25 @@ func (v *VerifPolicyConnections) CollectConnsFromBANP(o *VerifPolicyConnections)
 }
 func (v *VerifPolicyConnections) IsEmpty() bool            { return v.pc.IsEmpty() }
 func (v *VerifPolicyConnections) DeterminesAllConns() bool { return v.pc.DeterminesAllConns() }
+
+// VerifCachePeek reports whether a verdict for this query is memoised, and its value. It evaluates nothing and changes
+// neither the LRU order nor the hit counters (verification builds only).
+func (pe *PolicyEngine) VerifCachePeek(src, dst, protocol, port string) (cached, val bool) {
+	if pe.cache == nil || pe.cache.cache == nil {
+		return false, false
+	}
+	s, err := pe.getPeer(src)
+	if err != nil {
+		return false, false
+	}
+	d, err := pe.getPeer(dst)
+	if err != nil {
+		return false, false
+	}
+	key := pe.cache.keyPerConnection(s, d, protocol, port)
+	if key == "" {
+		return false, false
+	}
+	v, ok := pe.cache.cache.Peek(key)
+	return ok, v
+}
